@@ -1,5 +1,5 @@
 (** Command dispatcher of the executable model. *)
-From RP2V Require Import Base.Prelude Model.Entry.
+From RP2V Require Import Base.Prelude Model.Entry Model.EntryL6.
 Open Scope Z_scope.
 
 Definition entry (cmd : Z) (args : list Z) : list Z :=
@@ -12,4 +12,9 @@ Definition entry (cmd : Z) (args : list Z) : list Z :=
   if cmd =? 13 then entry_events args else
   if cmd =? 30 then entry_computed args else
   if cmd =? 40 then entry_parse args else
+  if cmd =? 90 then entry_run args else
+  if cmd =? 91 then entry_write_set args else
+  if cmd =? 92 then entry_static args else
+  if cmd =? 93 then entry_matrix args else
+  if cmd =? 94 then entry_static_detail args else
   [-999].
